@@ -719,7 +719,9 @@ fn run_direct(ids: &Ids, sc: &Scenario) -> Trace {
 			st.pos.push((hs.position(), hs.state()));
 			sm.pos.push((hy.position(), hy.state()));
 			st.obs.push(obs64(hs.position()));
+			st.obs.push(state_code(hs.state()));
 			sm.obs.push(obs64(hy.position()));
+			sm.obs.push(state_code(hy.state()));
 			let info = build_info(ids, &cb.clocks, &cb.mods);
 			for len in &cb.lens {
 				let mut bx = vec![Frame::new(7.0, 7.0); *len];
